@@ -107,7 +107,8 @@ def _int_floordiv(e):
 def _bool_index(e):
     """An index / substituted value computed by a comparison or boolean op (its data are numpy booleans)."""
     if e[0] == "B" and isinstance(e[1], tuple):
-        return e[3][0] in ("B", "U") and e[3][1] in _BOOL_PRODUCERS
+        # the index expression contains a comparison / boolean op whose numpy-boolean data reach the index
+        return any(s[0] in ("B", "U") and s[1] in _BOOL_PRODUCERS for s in lang.subterms(e[3]))
     if e[0] == "S":
         return any(v[0] in ("B", "U") and v[1] in _BOOL_PRODUCERS for _, v in e[2])
     return False
@@ -147,6 +148,7 @@ def features(e):
         f["arg_head"] = lang.head(e[1])
     if tag == "U":
         f["op"] = e[1]
+        f["operand_head"] = lang.head(e[3])
     if tag == "B":
         f["op"] = e[1] if not isinstance(e[1], tuple) else e[1][0]
     return f
